@@ -534,7 +534,7 @@ def main(tier, seed, replay=None):
                      for h in res.tagged("H")})
     cjobs = [(m, sc) for sc in scheds for m in (2, 3)]
     if tier == "quick":
-        cjobs = cjobs[seed % 2::2]
+        cjobs = par.sample(cjobs, 2, seed)
     for case, viol in par.pmap(_contour_sched, cjobs, chunk=300):
         ev.traces += 1
         ev.case(case, nontrivial=len({x[1] for x in case["schedule"]})
@@ -570,7 +570,7 @@ def main(tier, seed, replay=None):
         # 6. cached feature arrays: all read schedules vs fresh datasets
         rjobs = [(scratch, sc) for sc in scheds]
         if tier == "quick":
-            rjobs = rjobs[seed % 4::4]
+            rjobs = [(scratch, sc) for sc in par.sample(scheds, 4, seed)]
         for case, viol in par.pmap(_read_sched, rjobs, chunk=100):
             ev.traces += 1
             ev.case(case, nontrivial=True)
